@@ -970,6 +970,25 @@ def translate_item(src_root, item):
             txt = tr.value(val, env)
         used = _prune_lets(lets, txt)
         return tr.render(item['name'], env, ''.join(l + ';\n' for l in used) + txt, 'value')
+    if kind == 'subexpr':
+        # the first sub-expression of the function (in source order) whose unparsed text matches `pattern` exactly; every
+        # name in it is a parameter (use for index arithmetic that sits inside a larger array expression)
+        hit = None
+        for node in ast.walk(fn):
+            if isinstance(node, ast.expr):
+                try:
+                    txt_ = ast.unparse(node)
+                except Exception:
+                    continue
+                if re.fullmatch(item['pattern'], txt_):
+                    hit = node
+                    break
+        if hit is None:
+            raise Untranslatable(f'no sub-expression matching {item["pattern"]} in {item["function"]}')
+        env = Env([])
+        tr.free |= {n.id for n in ast.walk(hit) if isinstance(n, ast.Name)}
+        txt = tr.value(hit, env)
+        return tr.render(item['name'], env, txt, 'value')
     if kind == 'block':
         # the simple statements of the function body, from its start up to (not including) the first statement whose source
         # matches `until` (default: the whole body); statements that are not simple (loops, returns, with ...) are skipped and
